@@ -4,11 +4,13 @@ from ..runner import Spec, Case
 from .. import core
 
 NROOTS = 64
-WORDS = 'PMRB'; SEQ = 'ALH'; ARR = 'AL'; MAPS = 'TE'
+WORDS = 'PMRBQ'; SEQ = 'ALH'; ARR = 'AL'; MAPS = 'TE'
 # kind letter -> (kind, default key type, default element / value type); the letters U / F are T / E with Ref keys
 LETTER = {'P': ('P', 'R', 'R'), 'M': ('M', 'R', 'R'), 'R': ('R', 'R', 'R'), 'B': ('B', 'R', 'R'), 'A': ('A', 'R', 'R'), 'L': ('L', 'R', 'R'),
           'T': ('T', 'I', 'R'), 'U': ('T', 'R', 'R'), 'E': ('E', 'I', 'R'), 'F': ('E', 'R', 'R'), 'H': ('H', 'R', 'R'),
-          'W': ('W', 'S', 'R')}      # W: a Thread object other than current(Thread) (new(Thread), never started); set(t, key, obj) stores into its table
+          'W': ('W', 'S', 'R'),
+          'Y': ('Y', 'R', 'R'),        # a Type made at run time (new(Type, ...)): a registered object, a leaf for the marker
+          'Q': ('Q', 'R', 'R')}        # an instance of a run-time type (arg = the type's id): refers to its Type through its header only      # W: a Thread object other than current(Thread) (new(Thread), never started); set(t, key, obj) stores into its table
 NTLS = 64
 LEAF_T = 'ISF'
 CHAIN_CAP = {'R': 20000, 'P': 20000, 'A': 6000, 'H': 8000, 'U': 4000, 'L': 6000, 'E': 4000}
@@ -81,9 +83,10 @@ class Shadow:
         kind, kt, vt = LETTER[letter]
         if kind in ARR and arg != '-': vt = arg
         if kind in MAPS and arg != '-': kt, vt = arg[0], arg[1]
-        k = {'P': int(arg) if kind == 'P' else 0, 'M': 4, 'R': 1, 'B': 1}.get(kind, 0)
+        k = {'P': int(arg) if kind == 'P' else 0, 'M': 4, 'R': 1, 'B': 1, 'Q': 1}.get(kind, 0)
         self.o[i] = dict(kind=kind, k=k, root=root, owner=None, el=(['n'] * k if kind in WORDS else []), key=[], kt=kt, vt=vt)
         if kind == 'B': self.o[i]['el'][0] = 'o%d' % boxtgt; self.o[boxtgt]['owner'] = i; arg = str(boxtgt)
+        if kind == 'Q': self.o[i]['ty'] = int(arg)
         where = '-' if slot is None else 's%d' % slot
         if slot is not None: self.roots[slot] = 'o%d' % i
         self.emit(f"new {i} {letter}{'!' if root else ''} {arg} {where}")
@@ -314,7 +317,7 @@ class Shadow:
         if self.full: self.checkpoint()
         return base
 
-KINDS = ['P', 'P', 'P', 'R', 'R', 'M', 'A', 'L', 'T', 'U', 'E', 'F', 'H', 'H', 'B', 'W']
+KINDS = ['P', 'P', 'P', 'R', 'R', 'M', 'A', 'L', 'T', 'U', 'E', 'F', 'H', 'H', 'B', 'W', 'Q']
 
 FOCUS_KINDS = ['P', 'P', 'R', 'A', 'L', 'T', 'T', 'U', 'E', 'F', 'H', 'A', 'T']
 
@@ -371,6 +374,11 @@ def mutate(rng, sh, cands_fn, new_slot_fn):
         kind = rng.choice(FOCUS_KINDS if sh.focus else KINDS)
         if not sh.full and kind in 'ALTUEF' and rng.random() < 0.12:
             sh.newraw(kind, rand_types(rng, kind, sh.focus)); return
+        if kind == 'Q':
+            # an object of a type made at run time; generated histories keep the Type root-registered (in contract: KF-C01-type-outlived)
+            tys = [i for i in sh.o if sh.o[i]['kind'] == 'Y' and sh.o[i]['root']]
+            t = rng.choice(tys) if tys and rng.random() < 0.85 else sh.new('Y', root=True)
+            sh.new('Q', arg=str(t), slot=new_slot_fn()); return
         def mk(kind, slot, root=False):
             return sh.new(kind, arg=str(rng.choice([1, 2, 4, 8])) if kind == 'P' else rand_types(rng, kind, sh.focus), slot=slot, root=root)
         if kind == 'B':
@@ -392,9 +400,9 @@ def mutate_existing(rng, sh, cands):
     i = rng.choice(cands); o = sh.o[i]; k = o['kind']
     tg = [c for c in cands if not sh.owned(c)]
     if k in 'MH': tg = [c for c in tg if not sh.israw(c)]     # a Mark instance would hand the raw pointer to the callback
-    if k in 'PR' : sh.store(i, rng.randrange(o['k']), rand_tok(rng, sh, tg))
+    if k in 'PRQ': sh.store(i, rng.randrange(o['k']), rand_tok(rng, sh, tg))
     elif k == 'M': sh.store(i, rng.randrange(4), rand_tok(rng, sh, tg, junk=False))
-    elif k == 'B': return
+    elif k in 'BY': return
     elif k in SEQ:
         n = len(o['el']); q = rng.random()
         if n and q < 0.25: sh.pop(i, rng.randrange(n))
@@ -508,7 +516,7 @@ def gen_exact(rng, nops, maxobj, ncollect, focus=False, mid=False):
             if k in sh.tls and rng.random() < 0.5: sh.remtls(k)
             else: sh.settls(k, rand_tok(rng, sh, sh.targets(), junk=False))
         elif r < 0.08 and alive:
-            c = [i for i in alive if not sh.has_incoming(i)]
+            c = [i for i in alive if not sh.has_incoming(i) and sh.o[i]['kind'] != 'Y']
             if c: sh.delete(rng.choice(c))
         elif r < (0.30 if mid else 0.12) and not sh.stale:
             op = rand_inner(rng, sh, alive, sh.targets())
@@ -604,6 +612,18 @@ def shape_cases(quick):
         sh.xcollect([])                   # F25: reachable only from thread-local storage
         sh.remtls(3); sh.xcollect([])
     ex('tls_only_f25', tls_only)
+    def rt_types(sh):
+        # objects of run-time types, in contract: the Type root-registered / held by a root word / reachable through a Ref; the instance dies first
+        t0 = sh.new('Y', root=True); a = sh.new('Q', arg=str(t0)); b = sh.new('Q', arg=str(t0)); p = sh.new('P', arg='2')
+        sh.store(a, 0, f'o{p}'); sh.store(p, 0, f'o{b}')
+        sh.xcollect([f'o{a}']); sh.xcollect([f'm{a}', f'i{a}'])
+        t1 = sh.new('Y'); c = sh.new('Q', arg=str(t1)); r = sh.new('R'); sh.store(r, 0, f'o{t1}'); sh.store(c, 0, f'o{r}')
+        sh.xcollect([f'o{c}', f'o{t1}']); sh.xcollect([f'o{c}'])
+        h = sh.new('H'); sh.push(h, f'o{c}'); arr = sh.new('A'); sh.push(arr, f'o{h}')
+        sh.xcollect([f'o{arr}'])
+        sh.xcollect([f'o{t1}'])           # the instance goes first ...
+        sh.xcollect([])                   # ... then its Type
+    ex('runtime_types_anchored', rt_types)
     def sharing(sh):
         for k in 'RAHLTUEFMB':
             leaf = sh.new('P', arg='1')
@@ -1030,10 +1050,17 @@ class C01(Spec):
                     'register spill: every callee-saved register that holds a live pointer at the time of a collection is written, unmangled, into the scanned stack range '
                     'by setjmp(env) in GC_Mark or by a frame between the mutator and GC_Mark_Stack (glibc x86-64 setjmp stores rbx, r12-r15 plain but rbp, rsp and the return '
                     'address pointer-mangled; with -fomit-frame-pointer rbp is an ordinary callee-saved register): the model takes `stack : List Word` as given; full mode tests '
-                    'stack slots and a pointer held in a local of the allocating function (pair), not register-only pointers',
+                    'stack slots and a pointer held in a local of the allocating function (pair), not register-only pointers; observed on this compiler (audit 2, objdump of GC.o / Alloc.o '
+                    'at -O1 / -O2 / -O3 / -Os): GC_Mark itself pushes rbx (and r14 at -O3) but NOT rbp, and setjmp stores rbp mangled — rbp is inside the scanned range only because its three '
+                    'callers alloc_by, set and GC_Set each push it: the property rests on that register allocation, which no theorem covers',
                     'the marking order of the worklist model is the order of the C recursion (C01_rec_agrees gives equal results; the prefix property used for GOp.raise '
                     '(an exception leaves the mark phase after k marking events) is checked by the xraise corpus cases, not proved)')
     assumptions = ('single collector thread; registry counts below 2^63',
+                   'the types of all registered objects are static, root-registered, or themselves reachable from the roots (Cello.Heap.typesAnchored, checked by harness '
+                   'and model before every exact collection; full mode: run-time types are root-registered): a Type made with new(Type, ...) is NOT kept alive by its '
+                   'instances — the header\'s type pointer is not traced — and outside this hypothesis a collection releases the Type under its instances and the next '
+                   'one crashes in GC_Recurse (known finding KF-C01-type-outlived, witness corpus/kf_c01_type_outlived.ops, C01_type_outlived_refuted); element / key / '
+                   'value types of containers are static types',
                    'chains of at most 20 000 links in generated cases: the C marker recurses once per link (known finding F27, witness corpus/kf_c01_deep_chain.ops)',
                    'Box ownership contract: an object owned by a Box is referenced only by that Box (Box_Del deletes its target: GC_Rem_Ptr finalises it even when it is '
                    'registered and reachable) — hypothesis `boxExclusive` of C01_collect_safe_partial / C01_history_safe_partial, witness corpus/gcmark_box_shared_target.ops '
@@ -1041,7 +1068,10 @@ class C01(Spec):
                    'the chain consists of REGISTERED objects: a pointer to an object allocated with new_raw (or unregistered by hand) that is found on the stack, in a Ref, in a '
                    'plain struct or in a container element is ignored by GC_Mark_Item, so a path through it is not followed (Points / Reachable read the registry); only the Mark '
                    'instance of a registered Tuple / user type would hand such a pointer to the callback, which is not generated (witness corpus/gcmark_raw_container.ops)',
-                   'heap Tuples and user Mark instances hand only non-NULL pointers to registered objects; explicit del only of objects that nothing usable points to '
+                   'heap Tuples and user Mark instances hand only non-NULL pointers to registered objects in GENERATED cases; pointers to live unregistered objects (static, '
+                   'live stack frame, new_raw) are correct C — GC_Mark_And_Recurse traces them with GC_Recurse — and are modelled by Cello.Heap.levelX / Ext '
+                   '(C01_levelX_conservative, C01_tuple_live_items_complete; the general completion statement C01_rec_completes_live_statement is not proved), .ub being left for '
+                   'pointers that are neither registered nor live; explicit del only of objects that nothing usable points to '
                    'and that no Tuple / user Mark instance which has become garbage (and may not have been swept yet) pointed to: otherwise the next collection '
                    'reads freed memory (known finding KF-C01-dangling-tuple-item, witness corpus/kf_c01_dangling_tuple.ops)',
                    'full mode: survivors may exceed the reachable set (conservative stack scan); only reachable objects are used by later ops',
